@@ -79,6 +79,26 @@ def run_trainer(key):
     if key.get('data', '').startswith('tight'):
         # frames concentrated around one direction (spread 1e-2 .. 1e-4): small scatter eigenvalues
         y = y[..., :1, :] + 10.0 ** -int(key['data'][5:]) * y
+    if key.get('data') == 'many':
+        # more observations than any internal block size (vectorised reference below)
+        N = 70001
+        y = A.rng(seed, 'many', fam, D, lead).standard_normal(lead + (N, D)) * (1 + np.arange(D)) + 0.5
+        sal = make_sal(tuple(pat), lead, N)
+        c = np.ones(lead + (N,)) if sal is None else sal
+        got, e = _call(lambda: d.GaussianTrainer().fit(y, saliency=sal, covariance_type=opt))
+        if e is not None:
+            return viol(f'GaussianTrainer.fit raised {e!r} for N = {N}')
+        w = c / c.sum(-1, keepdims=True)
+        mean = np.einsum('...n,...nd->...d', w, y)
+        dlt = y - mean[..., None, :]
+        full = np.einsum('...n,...nd,...ne->...de', w, dlt, dlt)
+        want = full if opt == 'full' else np.diagonal(full, axis1=-2, axis2=-1) if opt == 'diagonal' else \
+            np.diagonal(full, axis1=-2, axis2=-1).mean(-1)
+        bad = tol.mismatch(np.asarray(got.mean), mean, 1e-9, what=f'Gaussian mean (N = {N})') or \
+            tol.mismatch(np.asarray(got.covariance), want, 1e-9, what=f'Gaussian covariance ({opt}, N = {N})')
+        if bad:
+            return viol(bad)
+        return ok(outcome=tol.digest(want))
     if key.get('data') == 'planar':
         # frames on D-1 coordinate axes with unequal shares plus a spread of 3e-4: one scatter eigenvalue of about
         # 1e-7 next to moderate, distinct ones (the blurred-start M-step of a cBMM with D = K + 1)
@@ -487,6 +507,22 @@ def run_alternation(key):
                     if bad:
                         return viol(bad)
             transitions += 1
+    # a fit started from a returned MODEL (initialization=<CACGMM instance>) continues the alternation exactly:
+    # its first M-step uses the posterior and the quadratic forms of that model (and the inline aligner)
+    if model == 'cacgmm' and n >= 3 and not ambiguous:
+        for i0 in (0, 1):
+            try:
+                cont = M.fit(model, data, trace[i0][1], 1, trainer_kw=tr_kw, **opts)
+            except Exception as e:  # noqa
+                return viol(f'cacgmm: fit(initialization=model_{i0}, iterations=1) raised {e!r}')
+            fa, fb = M.fields(model, cont), M.fields(model, trace[i0 + 1][1])
+            for name in fa:
+                bad = tol.mismatch(fa[name], fb[name], tol.ITER,
+                                   what=f'cacgmm {name}: fit(initialization=model_{i0}, iterations=1) vs traced '
+                                        f'model {i0 + 1}')
+                if bad:
+                    return viol(bad)
+            transitions += 1
     # the hook is faithful: fit(iterations=i) returns the traced model i-1
     for i in sorted({1, 2, n // 2, n}):
         if i < 1 or i > n:
@@ -571,6 +607,9 @@ def subchecks(tier, seed):
             for N in (24, 60):
                 for pat in (('none',), ('graded',)):
                     yield ('bingham', D, N, (), pat, 'default', 'planar', seed)
+        for opt in ('full', 'diagonal', 'spherical'):
+            for pat in (('none',), ('graded',)):
+                yield ('gauss', 2, 70001, (), pat, opt, 'many', seed)
         for fam, opts in (('watson', (500.0, 5.0)), ('vmf', ((1e-10, 500.0), (2.0, 5.0)))):
             for D in (2, 3, 5, 8):
                 for N in (2, 3, 7, 12, 31):
